@@ -64,6 +64,11 @@ def gen_table(d):
              "  st_defaults := %s;" % coq_list(ds).replace("; {|", ";\n    {|"),
              "  st_fields := %s;" % coq_list(fs).replace("; {|", ";\n    {|"),
              "  st_globals := %s |}." % coq_list(gs).replace("; {|", ";\n    {|")]
+    shp = d["entry_defaults"].get("shape", {})
+    lines += ["(* the version-dependent places of loaders.py / NetworkBuilder.py, read off the source *)",
+              "Definition shape : lshape := {| sh_mark_entry := %s; sh_append_first := %s; sh_h5_threads := %s |}."
+              % (b(shp.get("mark_entry")), b(shp.get("append_first")), b(shp.get("h5_threads"))),
+              "Definition elec_guard : bool := %s." % b(d.get("builder_shape", {}).get("elec_weight_guard"))]
     if all(ms.get(k) in mode for k in ("read_neuroml2_file", "read_neuroml2_string", "_read_neuroml2")):
         lines += ["(* cross-check: what the translator itself says about the loader defaults and the placements *)",
                   "Lemma modes_agree : modes_of table = {| m_file := %s; m_string := %s; m_inner := %s |}."
@@ -109,14 +114,16 @@ def table_and_props(ck, d):
             ref.append("Lemma defaults_refuted : mutated_defaults Gen_C07.table <> [].\nProof. vm_compute. discriminate. Qed.\n")
             if d["entry_defaults"].get("modes", {}).get("read_neuroml2_string") == "shared":
                 ref.append("Lemma history_refuted_for_this_table :\n"
-                           "  fst (exec_call 10 (modes_of Gen_C07.table) wit_fs wit_call (run_hist 10 (modes_of Gen_C07.table) wit_fs [wit_call] w_empty))\n"
-                           "  <> fst (exec_call 10 (modes_of Gen_C07.table) wit_fs wit_call w_empty).\nProof. vm_compute. discriminate. Qed.\n")
+                           "  fst (exec_call 10 (modes_of Gen_C07.table) Gen_C07.shape wit_fs wit_call\n"
+                           "         (run_hist 10 (modes_of Gen_C07.table) Gen_C07.shape wit_fs [wit_call] w_empty))\n"
+                           "  <> fst (exec_call 10 (modes_of Gen_C07.table) Gen_C07.shape wit_fs wit_call w_empty).\n"
+                           "Proof. vm_compute. discriminate. Qed.\n")
         if not inst_ok["fields"]:
             ref.append("Lemma fields_refuted : shared_fields Gen_C07.table <> [].\nProof. vm_compute. discriminate. Qed.\n")
             if any(f["cls"] == "NetworkBuilder" and f["attr"] == "populations" and f["placement"] == "Shared" for f in d["fields"]):
                 ref.append("Lemma interleave_refuted_for_this_table :\n"
-                           "  bdump (placement_of Gen_C07.table) WA (brun (placement_of Gen_C07.table) wit_sched bsys0)\n"
-                           "  <> solo_dump (ops_of WA wit_sched).\nProof. vm_compute. discriminate. Qed.\n")
+                           "  bdump (placement_of Gen_C07.table) WA (brun Gen_C07.elec_guard (placement_of Gen_C07.table) wit_sched bsys0)\n"
+                           "  <> solo_dump Gen_C07.elec_guard (ops_of WA wit_sched).\nProof. vm_compute. discriminate. Qed.\n")
         if not inst_ok["globals"]:
             ref.append("Lemma globals_refuted : globals_read Gen_C07.table <> [].\nProof. vm_compute. discriminate. Qed.\n")
         rp = ck.gen_v("Refuted_C07.v", "".join(ref))
@@ -391,7 +398,7 @@ def run_histories(ck, d, tmp, modes_known):
                      "Fixpoint agree_all (m : list res) (i : list (option (list string))) : bool :=\n"
                      "  match m, i with [], [] => true | a :: m', b :: i' => res_agrees a b && agree_all m' i' | _, _ => false end.",
                      "Definition chk (h : list lcall) (i : list (option (list string))) : bool :=\n"
-                     "  agree_all (results cell (list string) lcall res (exec_call 60 ms fs) h w_empty) i."]
+                     "  agree_all (results cell (list string) lcall res (exec_call 60 ms Gen_C07.shape fs) h w_empty) i."]
             terms = []
             for h, rs in part:
                 terms.append("chk %s %s" % (coq_list([model_call(tmp, calls[x]) for x in h]),
@@ -648,8 +655,9 @@ def run_schedules(ck, tmp, pool, placement_known):
             part = cases[k:k + chunk]
             lines = [HEAD, "Definition pl := placement_of Gen_C07.table.",
                      "Definition chk (s : list (who * op)) (ia ib : list rec3 * list bool) : bool :=\n"
-                     "  let st := brun pl s bsys0 in dump_eqb (bdump pl WA st) ia && dump_eqb (bdump pl WB st) ib.",
-                     "Definition chk_solo (o : list op) (i : list rec3 * list bool) : bool := dump_eqb (solo_dump o) i."]
+                     "  let st := brun Gen_C07.elec_guard pl s bsys0 in dump_eqb (bdump pl WA st) ia && dump_eqb (bdump pl WB st) ib.",
+                     "Definition chk_solo (o : list op) (i : list rec3 * list bool) : bool :=\n"
+                     "  dump_eqb (solo_dump Gen_C07.elec_guard o) i."]
             terms = []
             for _, (ia, ib, order, sched), r in part:
                 st = coq_list(["(%s, %s)" % ("WA" if w == "A" else "WB", op_term(o2)) for w, o2 in sched])
@@ -743,8 +751,8 @@ def replay(ck, data):
             if d is not None and ck.coqc(ck.gen_v("Gen_C07.v", gen_table(d)))[0]:
                 text = "\n".join([HEAD, "Definition fs : fstore :=\n  %s." % model_fs(tmp, inp["pool"]),
                                   "Definition ms := modes_of Gen_C07.table.",
-                                  "Eval vm_compute in (fst (exec_call 60 ms fs (%s) w_empty))." % model_call(tmp, calls[-1]),
-                                  "Eval vm_compute in (fst (exec_call 60 ms fs (%s) (run_hist 60 ms fs %s w_empty)))."
+                                  "Eval vm_compute in (fst (exec_call 60 ms Gen_C07.shape fs (%s) w_empty))." % model_call(tmp, calls[-1]),
+                                  "Eval vm_compute in (fst (exec_call 60 ms Gen_C07.shape fs (%s) (run_hist 60 ms Gen_C07.shape fs %s w_empty)))."
                                   % (model_call(tmp, calls[-1]), coq_list([model_call(tmp, c) for c in calls[:-1]]))])
                 ok, res, _ = ck.coq_eval("Replay_C07.v", text + "\n")
                 model = {"alone": res[0] if ok and res else None, "after_history": res[1] if ok and len(res) > 1 else None}
@@ -762,8 +770,8 @@ def replay(ck, data):
             if d is not None and ck.coqc(ck.gen_v("Gen_C07.v", gen_table(d)))[0]:
                 st = coq_list(["(%s, %s)" % ("WA" if ww == "A" else "WB", op_term(o)) for ww, o in sched])
                 text = "\n".join([HEAD, "Definition pl := placement_of Gen_C07.table.",
-                                  "Eval vm_compute in (bdump pl %s (brun pl %s bsys0))." % ("WA" if w == "A" else "WB", st),
-                                  "Eval vm_compute in (solo_dump %s)." % coq_list([op_term(o) for o in ops])])
+                                  "Eval vm_compute in (bdump pl %s (brun Gen_C07.elec_guard pl %s bsys0))." % ("WA" if w == "A" else "WB", st),
+                                  "Eval vm_compute in (solo_dump Gen_C07.elec_guard %s)." % coq_list([op_term(o) for o in ops])])
                 ok, res, _ = ck.coq_eval("Replay_C07.v", text + "\n")
                 model = {"interleaved": res[0] if ok and res else None, "solo": res[1] if ok and len(res) > 1 else None}
             print(json.dumps({"schedule": sched, "builder": w, "implementation": {"solo_fresh_process": solo, "interleaved": r,
